@@ -184,6 +184,54 @@ pub fn tier2(quick: bool) -> Vec<Program> {
             }
         }
     }
+    // asymmetric domains: one variable with a small domain that a distinctfd constant reduces to a
+    // singleton (so it is bound while the propagator is still working through its list), another
+    // with a wide domain, an ordering / arithmetic link between them posted before or after
+    {
+        let small: Vec<Dom> = vec![Dom::Sparse(vec![1, 3]), Dom::Range(0, 1), Dom::Range(1, 2)];
+        let wide: Vec<Dom> = vec![Dom::Range(0, 5), Dom::Range(-1, 2)];
+        let links: Vec<G> = vec![
+            G::Fd(FdKind::Lte, vec![x.clone(), z.clone()]),
+            G::Fd(FdKind::Lte, vec![z.clone(), x.clone()]),
+            G::Fd(FdKind::Lt, vec![x.clone(), z.clone()]),
+            G::Fd(FdKind::Lt, vec![z.clone(), x.clone()]),
+            G::Fd(FdKind::Diseq, vec![x.clone(), z.clone()]),
+            G::Fd(FdKind::Plus, vec![x.clone(), T::I(1), z.clone()]),
+            G::Fd(FdKind::Plus, vec![x.clone(), y.clone(), z.clone()]),
+            G::Fd(FdKind::Times, vec![x.clone(), y.clone(), z.clone()]),
+        ];
+        let distincts: Vec<G> = vec![
+            G::DistinctFd(T::list(vec![x.clone(), z.clone(), T::I(1)])),
+            G::DistinctFd(T::list(vec![z.clone(), x.clone(), T::I(1)])),
+            G::DistinctFd(T::list(vec![T::I(1), x.clone(), z.clone()])),
+            G::DistinctFd(T::list(vec![x.clone(), y.clone(), z.clone(), T::I(1)])),
+            G::DistinctFd(T::list(vec![x.clone(), z.clone(), T::I(3)])),
+        ];
+        for ds in &small {
+            for dw in &wide {
+                for l in &links {
+                    for d in &distincts {
+                        let stmts = vec![
+                            G::InFd(vec![x.clone()], ds.clone()),
+                            G::InFd(vec![y.clone()], Dom::Range(0, 2)),
+                            G::InFd(vec![z.clone()], dw.clone()),
+                            l.clone(),
+                            d.clone(),
+                        ];
+                        // domains first in both relative orders of the two constraints, and every
+                        // position of the distinct constraint among the other statements
+                        let mut orders: Vec<Vec<usize>> = vec![vec![0, 1, 2, 3, 4], vec![0, 1, 2, 4, 3], vec![3, 0, 1, 2, 4], vec![4, 3, 0, 1, 2], vec![3, 4, 2, 1, 0], vec![2, 3, 0, 4, 1]];
+                        if !quick {
+                            orders.extend(vec![vec![0, 3, 1, 4, 2], vec![4, 0, 1, 2, 3], vec![2, 1, 0, 3, 4], vec![0, 4, 2, 3, 1], vec![1, 3, 4, 0, 2], vec![3, 2, 4, 0, 1]]);
+                        }
+                        for o in orders {
+                            out.push(Program { nq: 3, body: o.iter().map(|i| stmts[*i].clone()).collect() });
+                        }
+                    }
+                }
+            }
+        }
+    }
     // operands already bound when the constraint is posted (and the other way round)
     let binds: Vec<G> = vec![
         G::Eq(x.clone(), T::I(1)),
